@@ -38,7 +38,7 @@ def up4_leg(ck, tier, seed, replay_case=None):
         return
     ck.tie("UP4 leg: harness builds and runs against the current tree", True)
     dist = ck.distribution if isinstance(ck.distribution, dict) else {}
-    n_end = 0
+    n_end = nconfirm = 0
     for c, o in zip(cases, outs):
         ck.count(["up4", c["input"]["cfg"], c["input"]["up4"]] + [e.get("hex", e["k"]) + str(e.get("faults", "")) for e in c["input"]["events"]], True)
         for it in c["intents"]:
@@ -52,6 +52,11 @@ def up4_leg(ck, tier, seed, replay_case=None):
             if s in seen:
                 continue
             seen.add(s)
+            if replay_case is None and not c.get("tag") and nconfirm < 10:
+                nconfirm += 1
+                if not U.confirmed(binary, c, sig, C.mon_c05_up4):
+                    ck.notes["unconfirmed_failures"] = ck.notes.get("unconfirmed_failures", 0) + 1
+                    continue
             ob = o.get("obs", [])
             ck.fail(s, f"UP4 {c['name']}: {msg}", {"leg": "up4", "tag": c.get("tag"), "name": c["name"], "input": c["input"], "intents": c["intents"], "event": i,
                                                    "impl_event": {k: v for k, v in (ob[i] if i < len(ob) else {}).items() if k not in ("tables",)}})
